@@ -394,6 +394,10 @@ namespace occa {
   protected:
     //---[ Lambda methods ]-------------
     bool typelessEvery(const baseFunction &fn) const {
+      if (!length()) {
+        return true;
+      }
+
       bool returnValue = true;
 
       setupReturnMemory(returnValue);
@@ -418,6 +422,10 @@ namespace occa {
     }
 
     int typelessFindIndex(const baseFunction &fn) const {
+      if (!length()) {
+        return -1;
+      }
+
       if (usingNativeCpuMode()) {
         return typelessCpuFindIndex(fn);
       }
@@ -489,6 +497,10 @@ namespace occa {
     }
 
     void typelessForEach(const baseFunction &fn) const {
+      if (!length()) {
+        return;
+      }
+
       OCCA_JIT(getMapArrayScope(fn), (
         OCCA_ARRAY_TILE_FOR_LOOP {
           OCCA_ARRAY_TILE_PARALLEL_FOR_LOOP {
@@ -500,6 +512,10 @@ namespace occa {
 
     template <class T2>
     occa::memory typelessMap(const baseFunction &fn) const {
+      if (!length()) {
+        return occa::memory();
+      }
+
       occa::memory output = device_.template malloc<T2>(length());
 
       typelessMapTo(output, fn);
@@ -509,6 +525,10 @@ namespace occa {
 
     void typelessMapTo(occa::memory output,
                        const baseFunction &fn) const {
+      if (!length()) {
+        return;
+      }
+
       occa::scope arrayScope = getMapArrayScope(fn);
       arrayScope.add("occa_array_output", output);
 
@@ -526,6 +546,20 @@ namespace occa {
                        const T2 &localInit,
                        const bool useLocalInit,
                        const baseFunction &fn) const {
+      if (!length()) {
+        // Nothing to reduce, the result is the initial value
+        if (useLocalInit) {
+          return localInit;
+        }
+        OCCA_ERROR("Cannot reduce an empty array without an initial value",
+                   (type == reductionType::sum) ||
+                   (type == reductionType::multiply) ||
+                   (type == reductionType::bitOr) ||
+                   (type == reductionType::bitXor) ||
+                   (type == reductionType::boolOr));
+        return (T2) (type == reductionType::multiply ? 1 : 0);
+      }
+
       if (usingNativeCpuMode()) {
         return typelessCpuReduce<T2>(type, localInit, useLocalInit, fn);
       } else {
